@@ -241,6 +241,15 @@ def vm_correspondence(ctx, cases, hists, a, b):
 def debugger_suite(ctx, n_random, hist_len, exhaustive_len, big=False):
     """builds programs + histories, runs them, returns tuples for the per-property oracles"""
     cases = compile_sources(ctx, n_random - n_random // 3, big=big)
+    if not big:
+        # some programs whose values reach the top of the word range (saturating additions): the two ways of resuming
+        # (execute / instruction by instruction) must agree there too
+        cases += compile_sources(ctx, max(6, n_random // 6), big=True)
+        for src in ("x0 := 2147483646;\nx1 := x0 + 5;\nx2 := x1 - 7\n",
+                    "x0 := 2147483640;\nLOOP x0 DO x1 := x1 + 2147483646; x2 := x1 - 1; STOP END\n"):
+            o = impl(ctx, ['GEN ' + files_req(b'm', {b'm': src.encode()})])[0]
+            if not is_crash(o) and fields(o).get('ok') == '1':
+                cases.append({'defs': [], 'main': [], 'files': {b'm': src.encode()}, 'mainf': b'm', 'text': src, 'prog': Prog(fields(o))})
     # non-canonical layouts: several statements per line, headers sharing a line with other code, pieces in included files
     from checks import front as _front
     for (m, f, meta) in _front.program_files(ctx, n_random // 3, mutate_frac=0.0, multi_frac=0.6, big=big):
@@ -306,8 +315,16 @@ def debugger_suite(ctx, n_random, hist_len, exhaustive_len, big=False):
     for c in keep:
         if c['defs'] is not None and len(c.get('files', {})) > 1:
             jobs.append((c, ['b:' + bp for bp in c['prog'].avail] + ['e'] * 12 + ['c', 'e']))
+    # VM::execute() itself (op E) instead of the capped loop (op e) wherever the uninterrupted run is known to finish
+    out = []
+    for (c, h) in jobs:
+        p_ = c['prog']
+        complete = p_.ops[int(c['path'][-1]['ip'])] == 'HALT'
+        if complete:
+            h = [('E' if (op == 'e' and ctx.rnd.random() < 0.5) else op) for op in h]
+        out.append((c, h))
     ctx.cov['exhaustive_histories'] = nex
-    return jobs
+    return out
 
 
 def check_history_oracles(ctx, jobs, a, which):
@@ -337,7 +354,7 @@ def check_history_oracles(ctx, jobs, a, which):
                 break
             if e is None:
                 break
-            if d['r'] == '1' and op in ('s', 'e') and d['done'] == '0':
+            if d['r'] == '1' and op in ('s', 'e', 'E') and d['done'] == '0':
                 nstops += 1
             if 'C05' in which:
                 if 'acts' in d and (d['ip'], d['data'], d['stk']) == (e['ip'], e['data'], e['stk']) and d['acts'] != expected_view(p, e):
@@ -371,7 +388,7 @@ def check_history_oracles(ctx, jobs, a, which):
                         ctx.violation('reset-not-fresh', 'after reset (call %d) the machine differs from a new one: %s' % (i, x.split('|')[i][:200]),
                                       {'source': c['text'], 'history': h[:i + 1]})
                         break
-                if i > 0 and dumps[i - 1]['done'] == '1' and op in ('s', 'e'):
+                if i > 0 and dumps[i - 1]['done'] == '1' and op in ('s', 'e', 'E'):
                     prev, curd = dict(dumps[i - 1]), dict(d)
                     prev.pop('r'), curd.pop('r')
                     prev.pop('acts', None), curd.pop('acts', None)
